@@ -64,6 +64,13 @@ def switched(s, k, thr):
     return k * s if s > thr else 0.25 * k * s * s
 
 
+def mm_keywords(s, vmax, km):
+    """Calls a shipped rate law with its keyword arguments in another order than its signature."""
+    from mxlpy import fns
+
+    return fns.michaelis_menten_1s(s, km1=km, vmax=vmax)
+
+
 N_STEPS = 2  # a module-level int: translating a function that reads it fails in another way than a loop does
 
 
@@ -78,6 +85,7 @@ def build_model(c, stiff=False):
         m.add_parameters({"cap": 2.2, "thr": 0.8})
         m.add_reaction("vcap", capped, args=[first, "kin", "cap"], stoichiometry={first: -1})
         m.add_reaction("vsw", switched, args=[first, "kc", "thr"], stoichiometry={first: -1})
+        m.add_reaction("vkw", mm_keywords, args=[first, "kin", "cap"], stoichiometry={first: -1})
     if c.get("untr"):
         first = m.get_variable_names()[0]
         fn = {1: loop_rate, 2: int_global_rate, 3: lambda s, k: (
